@@ -60,8 +60,11 @@ def L():
 
 # ---------------------------------------------------------------- interposition (child only)
 class Crash:
-    def __init__(self, root, stop_after, cut):
+    def __init__(self, root, stop_after, cut, buffered=False):
         self.root, self.stop_after, self.cut, self.n, self.trace = os.path.realpath(root), stop_after, cut, 0, []
+        # buffered: what a process writes reaches the file only when the file is closed (Python's write buffer is lost by a kill):
+        # the worst case for a protocol that publishes (renames) a file it has not closed yet
+        self.buffered = buffered
 
     def mine(self, p):
         try:
@@ -92,14 +95,20 @@ class FileProxy:
             self._f.flush()
             cr.trace.append(("partial", os.path.relpath(os.path.realpath(self._p), cr.root), k))
             cr.finish()
-        r = self._f.write(b)
-        self._f.flush()
+        if cr.buffered:
+            self._pending = getattr(self, "_pending", b"") + bytes(b)
+            r = len(b)
+        else:
+            r = self._f.write(b)
+            self._f.flush()
         cr.done("a", self._p, len(b))
         return r
 
     def close(self):
         if not self._closed:
             self._closed = True
+            if getattr(self, "_pending", None):
+                self._f.write(self._pending)
             self._f.close()
             self._cr.done("x", self._p)
 
@@ -307,14 +316,14 @@ def listing_tree(root):
 
 
 # ---------------------------------------------------------------- one scenario
-def run_child(backend, run, action, stop_after, cut):
+def run_child(backend, run, action, stop_after, cut, buffered=False):
     r, w = os.pipe()
     pid = os.fork()
     if pid == 0:
         try:
             os.close(r)
             obj = make_cache(backend, run)
-            cr = Crash(run, stop_after, cut)
+            cr = Crash(run, stop_after, cut, buffered)
             real_exit = os._exit
 
             def fin():
@@ -418,6 +427,25 @@ def scenario(args):
                 res["violations"].append(dict(key="%s:%s:%s:other-key" % (backend, scen, vt),
                                               what="%s %s (%s): crash %s changes what the other key %r reads" % (backend, scen, vt, where, other), point=[i, cut]))
             res["points"].append(dict(i=i, cut=cut, cutn=cutn, actual=actual))
+        # the same crash points once more with a write buffer that is lost by the kill (oracle only: the model's steps write through)
+        for i in range(1, len(trace) + 1):
+            run = os.path.join(base, "run")
+            shutil.copytree(root0, run)
+            run_child(backend, run, action, i, None, buffered=True)
+            got = reads(backend, run, key)
+            classes = [classify(g, o, n) for g, o, n in zip(got, old, new)]
+            frame = "same" if reads(backend, run, other) == old_other else "changed"
+            shutil.rmtree(run)
+            where = "after %d of %d file operations (%s %s), data written to files that were not closed yet is lost" % (i, len(trace), trace[i - 1][0], trace[i - 1][1])
+            for nm, c, g in zip(("get", "get_metadata") if is_cache(backend) else ("get_bytes", "get_metadata"), classes, got):
+                if c == "other":
+                    res["violations"].append(dict(key="%s:%s:%s:%s:buffered" % (backend, scen, vt, nm),
+                                                  what="%s %s (%s): crash %s, then a fresh %s(%r) returns %r — neither nothing, nor the previous entry %r, nor the new entry" % (
+                                                      backend, scen, vt, where, nm, key, short(g), short(old[0])), point=[i, "buffered"]))
+            if frame == "changed":
+                res["violations"].append(dict(key="%s:%s:%s:other-key:buffered" % (backend, scen, vt),
+                                              what="%s %s (%s): crash %s changes what the other key %r reads" % (backend, scen, vt, where, other), point=[i, "buffered"]))
+            res["buffered_points"] = res.get("buffered_points", 0) + 1
         # model request ingredients
         res["model"] = model_request(backend, scen, key, other, old_v, new_v, files0, files1, root0, ref, l)
         return res
@@ -548,6 +576,10 @@ def run(ctx):
             impl.append("steps=%s %s" % (r["trace"], p["actual"]))
             cases.append(dict(scenario=tag, after=n, cut=p["cut"], trace=r["trace"]))
     ctx.exhaustive.append("every file-operation boundary and three partial writes per write of %d scenarios (%d crash runs)" % (len(results), len(lines)))
+    nbuf = sum(r.get("buffered_points", 0) for r in results)
+    ctx.exhaustive.append("every file-operation boundary once more with a write buffer that the kill loses (data reaches a file when it is closed): %d crash runs, oracle only" % nbuf)
+    ctx.count("crash runs", "write-through", len(lines))
+    ctx.count("crash runs", "buffered writes lost", nbuf)
     ctx.sample(dict(scenario=cases[0]["scenario"], observed_steps=cases[0]["trace"], first_points=impl[:3]))
     mid = len(lines) // 2
     ctx.sample(dict(scenario=cases[mid]["scenario"], crash_after=cases[mid]["after"], partial=cases[mid]["cut"], observed=impl[mid][:200]))
